@@ -358,6 +358,15 @@ static std::vector<Case> enum_C20(const GenCtx &ctx) {
       if (SCN[s].needs_file) c.sets("file", tmpdir() + "/vf-c20-" + std::to_string(s) + "-" + std::to_string(var));
       v.push_back(c);
     }
+  // allocation paths may depend on the size class of the request (block cache threshold, large-block shortcuts): the cheap
+  // data-movement scenarios are also enumerated with operands whose data blocks exceed 1 MiB resp. the cache threshold
+  for (const char *name : {"create", "copy", "add", "transpose", "submatrix", "concat", "stack", "transpose_into_window", "mzp_init"}) {
+    for (int big : {2944, 4160}) {
+      Case c;
+      c.sets("prop", "C20").sets("op", name).set("m", big).set("l", 64).set("n", big + 7).set("k", 0).setu("seed", 3 + big);
+      v.push_back(c);
+    }
+  }
   return v;
 }
 
